@@ -37,7 +37,7 @@ func init() {
 	register(&Prop{
 		ID:         "C09",
 		Title:      "The expression front end is total and strict",
-		Decided:    "absence of run-time faults, progress, and the parser's acceptance condition, over every function of interpreter and interpreter/language reachable from Language.Match/Update: (R1) every single-result type assertion is dominated by facts that establish the asserted dynamic type (type-tag tests, matchTypes, same-type classes, type switches, earlier comma-ok, facts established at all call sites, constant-specialised callee results); (R2) every slice/string index and slice expression is bounded: range/count-down loop indices, constant indices under an established length, two-sided guards – three sites rest on named assumptions; (R3) nil discipline: every nil result of a parse function is accompanied by a recorded error, both entry points either assign the parsed expression or record an error on every path, and Match/Update test the parser's errors before evaluating; (R4) every loop either iterates over a finite container / counts, or consumes input on every cycle; (R5) every recursive cycle contains a progressing edge (a token consumed before the call, or an argument that is a strict sub-term of a parameter, or a visited-set guard); (R6) strictness: the whole input must be one sentence – a second sentence records an error; (R7) an evaluation error object always becomes an error return of Match/Update; (R9) a malformed operand is only noticed when it is evaluated: every node evaluator evaluates all its operands, and every member of a list operand, before it returns a non-error result (= C16.R8); (R8) wherever the parser builds an identifier node from the current token by a direct call (operands of BETWEEN, path members) the token kind has just been checked (expectPeek(IDENT) or an equivalent test) – otherwise an operator, a parenthesis or the end of input is taken for a name and a non-sentence is evaluated; and the lexer produces the end-of-input token only under a test of its position against the input length, so a NUL byte inside the expression does not cut it short.",
+		Decided:    "absence of run-time faults, progress, and the parser's acceptance condition, over every function of interpreter and interpreter/language reachable from Language.Match/Update: (R1) every single-result type assertion is dominated by facts that establish the asserted dynamic type (type-tag tests, matchTypes, same-type classes, type switches, earlier comma-ok, facts established at all call sites, constant-specialised callee results); (R2) every slice/string index and slice expression is bounded: range/count-down loop indices, constant indices under an established length, two-sided guards – three sites rest on named assumptions; (R3) nil discipline: every nil result of a parse function is accompanied by a recorded error, both entry points either assign the parsed expression or record an error on every path, and Match/Update test the parser's errors before evaluating; (R4) every loop either iterates over a finite container / counts, or consumes input on every cycle; (R5) every recursive cycle contains a progressing edge (a token consumed before the call, or an argument that is a strict sub-term of a parameter, or a visited-set guard); (R6) strictness: the whole input must be one sentence – a second sentence records an error; (R7) an evaluation error object always becomes an error return of Match/Update; (R9) a malformed operand is only noticed when it is evaluated: every node evaluator evaluates all its operands, and every member of a list operand, before it returns a non-error result (= C16.R8); (R8) wherever the parser builds an identifier node from the current token by a direct call (operands of BETWEEN, path members) the token kind has just been checked (expectPeek(IDENT) or an equivalent test) – otherwise an operator, a parenthesis or the end of input is taken for a name and a non-sentence is evaluated; and the lexer produces the end-of-input token only under a test of its position against the input length, so a NUL byte inside the expression does not cut it short; (R10) the lexer's whitespace skipper is evaluated for each of the 256 byte values: it must skip space, tab, CR and LF and nothing else – any other byte it swallows (vertical tab, form feed, 0x85, 0xA0) is an unknown character accepted inside an expression; a skipper that calls out (unicode.IsSpace) cannot be evaluated and is reported.",
 		NotDecided: "that every ungrammatical string is rejected by the inner productions (R3/R6 decide the top-level acceptance condition and 'nil implies error'); stack depth for deeply nested but finite inputs; arithmetic overflow in list indexes converted from float64.",
 		Assumes:    []string{"objects and AST nodes are finite acyclic trees built from finite inputs (structural-descent recursion terminates)", "Lexer.readPosition/position are only ever increased from zero (verified: the only stores are in readChar)"},
 		Rules: []RuleDef{
@@ -50,6 +50,7 @@ func init() {
 			{ID: "R7", Desc: "evaluation errors surface as errors of Match/Update (T-DOM)", Run: c09R7},
 			{ID: "R9", Desc: "strictness: every operand and every list member is evaluated before a non-error result (= C16.R8)", Run: aliasRule("R9", c16R8, nil)},
 			{ID: "R8", Desc: "the parser takes an identifier only from a token known to be one, and the lexer ends the input only at its end (T-GUARD)", Run: c09R8},
+			{ID: "R10", Desc: "the lexer skips exactly the four ASCII whitespace bytes (decision table over all 256 byte values)", Run: c09R10},
 		},
 	})
 }
@@ -1428,4 +1429,136 @@ func errorObjectGate(h *ssa.Function) bool {
 		}
 	}
 	return n > 0
+}
+
+// c09R10: which bytes does the lexer skip between tokens? The skipper is a loop `for <cond on l.ch> { l.readChar() }`. For
+// every byte value the loop condition is evaluated abstractly (comparisons of the current byte with constants); the set of
+// skipped bytes must be exactly {' ', '\t', '\n', '\r'}.
+func c09R10(e *Engine) {
+	rc := e.fn("lang", "Lexer.readChar")
+	chF := e.field("lang", "Lexer", "ch")
+	if !e.anchor("R10", "lang.Lexer.readChar / Lexer.ch", rc == nil || chF == nil) {
+		return
+	}
+	n := 0
+	for _, fn := range e.funcs("lang") {
+		if fn.Signature.Recv() == nil || fn.Signature.Results().Len() != 0 || fn.Parent() != nil || fn == rc {
+			continue
+		}
+		// a skipper: its only call is readChar, inside a loop
+		var body *ssa.BasicBlock
+		only := true
+		instrs(fn, func(in ssa.Instruction) {
+			if c, ok := in.(*ssa.Call); ok && !isBuiltin(c) {
+				if c.Call.StaticCallee() == rc {
+					body = c.Block()
+				} else if !bytePredicate(c.Call.StaticCallee()) && (c.Call.StaticCallee() == nil || e.fnRole(c.Call.StaticCallee()) == "lang") {
+					only = false
+				}
+			}
+		})
+		if body == nil || !only {
+			continue
+		}
+		inLoop := false
+		for _, l := range naturalLoops(fn) {
+			if l[body] {
+				inLoop = true
+			}
+		}
+		if !inLoop {
+			continue
+		}
+		n++
+		construct := e.fname(fn) + ":skips-only-ascii-whitespace"
+		var skipped []int
+		undecided := false
+		for b := 0; b < 256; b++ {
+			isCh := func(v ssa.Value) bool { f, _ := loadedField(v); return f == chF }
+			reached, ok := interpReaches(fn, func(v ssa.Value) (bool, bool) {
+				// a predicate on the byte, extracted into a function of its own: isWhitespace(l.ch)
+				if c, isC := v.(*ssa.Call); isC && bytePredicate(c.Call.StaticCallee()) && len(c.Call.Args) == 1 && isCh(c.Call.Args[0]) {
+					g := c.Call.StaticCallee()
+					ret, evalAt, ok := interpBool(g, func(w ssa.Value) (bool, bool) {
+						return byteCompare(w, func(x ssa.Value) bool { return strip(x) == ssa.Value(g.Params[0]) }, b)
+					})
+					if !ok {
+						return false, false
+					}
+					return evalAt(retVals(ret)[0])
+				}
+				return byteCompare(v, isCh, b)
+			}, body)
+			if !ok {
+				undecided = true
+				break
+			}
+			if reached {
+				skipped = append(skipped, b)
+			}
+		}
+		want := []int{9, 10, 13, 32}
+		switch {
+		case undecided:
+			e.fail("R10", construct, e.pos(fn.Pos()), "the condition under which a byte is skipped is not a comparison of the current byte with constants (it calls out or uses a table): which bytes are swallowed between tokens cannot be established – unicode-aware predicates also skip \\v, \\f, 0x85 and 0xA0, unknown characters that must be rejected")
+		case fmt.Sprint(skipped) != fmt.Sprint(want):
+			e.fail("R10", construct, e.pos(fn.Pos()), "the bytes skipped between tokens are %v, not exactly space, tab, LF and CR %v: the others are unknown characters accepted inside an expression", skipped, want)
+		default:
+			e.pass("R10", construct, e.pos(fn.Pos()), "evaluated for all 256 byte values: exactly %v are skipped", want)
+		}
+	}
+	if n == 0 {
+		e.undecided("R10", "lang.Lexer:whitespace-skipper", "-", "no whitespace-skipping loop found in the lexer")
+	}
+}
+
+// bytePredicate: a package-local func(byte) bool without calls.
+func bytePredicate(g *ssa.Function) bool {
+	if g == nil || g.Blocks == nil || len(g.Params) != 1 || g.Signature.Results().Len() != 1 || !isBoolType(g.Signature.Results().At(0).Type()) {
+		return false
+	}
+	if b, ok := g.Params[0].Type().Underlying().(*types.Basic); !ok || b.Kind() != types.Uint8 {
+		return false
+	}
+	pure := true
+	instrs(g, func(in ssa.Instruction) {
+		if _, isCall := in.(ssa.CallInstruction); isCall {
+			pure = false
+		}
+	})
+	return pure
+}
+
+// byteCompare evaluates `x op const` for x denoting the byte (per isByte) with value b.
+func byteCompare(v ssa.Value, isByte func(ssa.Value) bool, b int) (bool, bool) {
+	bo, isB := v.(*ssa.BinOp)
+	if !isB {
+		return false, false
+	}
+	x, y, op := bo.X, bo.Y, bo.Op
+	if isByte(y) {
+		x, y, op = y, x, flipOp(op)
+	}
+	if !isByte(x) {
+		return false, false
+	}
+	k, isK := constInt(y)
+	if !isK {
+		return false, false
+	}
+	switch op {
+	case token.EQL:
+		return int64(b) == k, true
+	case token.NEQ:
+		return int64(b) != k, true
+	case token.LSS:
+		return int64(b) < k, true
+	case token.LEQ:
+		return int64(b) <= k, true
+	case token.GTR:
+		return int64(b) > k, true
+	case token.GEQ:
+		return int64(b) >= k, true
+	}
+	return false, false
 }
